@@ -42,11 +42,11 @@ class AnalysisProcess(Process):
             instance = self.instance_queue.get()
             if instance is StopCommand:
                 return
-            for analysis in self.analyses:
+            for i, analysis in enumerate(self.analyses):
                 try:
                     if isinstance(instance, tuple):
-                        command, *args = instance
-                        result = getattr(analysis, command)(*args)
+                        command, child_paths, *args = instance
+                        result = getattr(analysis, command)(child_paths[i], *args)
                     else:
                         result = analysis.log_likelihood_function(instance)
                     self.queue.put(result)
@@ -194,8 +194,14 @@ class AnalysisPool:
         args
             The arguments to pass to the function
         """
-        for i, process in enumerate(self.processes):
-            child_paths = paths.for_sub_analysis(analysis_name=f"analyses/analysis_{i}")
+        index = 0
+        for process in self.processes:
+            # one folder per analysis (not per process), numbered as in _for_each_analysis
+            child_paths = [
+                paths.for_sub_analysis(analysis_name=f"analyses/analysis_{index + i}")
+                for i in range(len(process.analyses))
+            ]
+            index += len(process.analyses)
             process.instance_queue.put((function_name, child_paths, *args))
 
         self.results()
